@@ -438,3 +438,37 @@ Example C01_nonvacuous :
   ndeps nv_history = [1; 1; 1; 1; 1; 1; 1; 0; 1; 0].
 Proof. exact nonvacuous. Qed.
 Print Assumptions C01_nonvacuous.
+
+(* ---- round 5: storage read faults (Engine/SeqRead.v) ----
+   The effect signature gives the storage reads no error answer, so a history with a failed read is
+   compared with the model up to the faulted operation and judged by the runtime oracle from there on
+   (on the unchanged tree every such operation aborts or fails with the ledger clauses intact).
+   What the model says: if a failed read were answered like an EMPTY one — what the seeded change
+   C01-10 makes Storage.DeployedAll do with every error — the clauses break.  [run_lost_read n o w]
+   runs operation o on world w with its n-th read effect (0-based) answered empty.
+   (a) 1:deployed 2:failed 3:failed; upgrade --history-max 3: answered truthfully revision 2 is pruned;
+       with the deployed lookup of the pruning (read 3) lost, revision 1 is deleted while deployed. *)
+From Helm Require Engine.SeqRead.
+
+Theorem C01_lost_read_prunes_deployed_refuted :
+  Contain.statuses (w_led (SeqRead.world_of SeqRead.ra_prefix)) = [(1, SDeployed); (2, SFailed); (3, SFailed)] /\
+  (let '(w, out, _) := run_store_op "rel" "default" (mkOp SeqRead.ra_op (mkSF None None) (mkCF None None false))
+                                    (SeqRead.world_of SeqRead.ra_prefix) in
+   out = OOk /\ Contain.statuses (w_led w) = [(1, SSuperseded); (3, SFailed); (4, SDeployed)]) /\
+  (let '(w, out, t) := SeqRead.run_lost_read 3 SeqRead.ra_op (SeqRead.world_of SeqRead.ra_prefix) in
+   out = OOk /\ Contain.statuses (w_led w) = [(2, SFailed); (3, SFailed); (4, SDeployed)] /\
+   In (TStore "delete" 1 SUnknown) t).
+Proof. exact SeqRead.lost_read_prunes_deployed_refuted. Qed.
+Print Assumptions C01_lost_read_prunes_deployed_refuted.
+
+(* (b) 1:superseded 2:deployed; rollback to 1: with the lookup of the revisions to supersede (read 3)
+       lost, the rollback reports success with two deployed revisions *)
+Theorem C01_lost_read_two_deployed_refuted :
+  Contain.statuses (w_led (SeqRead.world_of SeqRead.rb_prefix)) = [(1, SSuperseded); (2, SDeployed)] /\
+  (let '(w, out, _) := run_store_op "rel" "default" (mkOp (OpRollback SeqRead.fl_to1) (mkSF None None) (mkCF None None false))
+                                    (SeqRead.world_of SeqRead.rb_prefix) in
+   out = OOk /\ Contain.statuses (w_led w) = [(1, SSuperseded); (2, SSuperseded); (3, SDeployed)]) /\
+  (let '(w, out, _) := SeqRead.run_lost_read 3 (OpRollback SeqRead.fl_to1) (SeqRead.world_of SeqRead.rb_prefix) in
+   out = OOk /\ Contain.statuses (w_led w) = [(1, SSuperseded); (2, SDeployed); (3, SDeployed)]).
+Proof. exact SeqRead.lost_read_two_deployed_refuted. Qed.
+Print Assumptions C01_lost_read_two_deployed_refuted.
